@@ -115,6 +115,14 @@ CLAIMS = {
              'and shutdown during back-off.',
         ref='5 C10', note=NOTE_XH + ' Floats are modelled as reals (1e-9 slack).',
         technique='symbolic execution (CrossHair+z3, real arithmetic) of the real reconnect loop with time and randomness as symbolic inputs'),
+    'C08': dict(
+        text='Bounded symbolic execution of the real Client/AsyncClient connect(), _handle_connect/_handle_disconnect/'
+             '_handle_error, emit guard and _handle_eio_disconnect with the harness as server: every subset/order of two '
+             'namespaces, auth forms, wait on/off, every accept/refuse/silence pattern, a second attempt after a failed '
+             'connect, a connected life, every way of ending it, and a fresh connection probed with a late ACK and a '
+             'stray attachment; after each step namespaces/get_sid/connected are compared with the server view and '
+             'handler invocation counts with the model. Exhaustive within those bounds.',
+        ref='5 C08', technique='symbolic execution (CrossHair+z3) of the real client over bounded histories vs server-view model'),
 }
 
 PENDING = 'check not built yet in this tree (work in progress); no claim is made'
